@@ -251,7 +251,9 @@ def result(draw, lang, for_fortran=True, allowed=None, types=None):
     if r == "S1":
         return dict(row="S1", T="char", ctype="const char *", attrs="")
     if r == "S1len":
-        return dict(row="S1len", T="char", ctype="const char *", attrs="+len(30)", flen=30)
+        # (a declared length shorter than what the library returns: the documented truncation)
+        n = draw(st.sampled_from([30, 30, 8, 5]))
+        return dict(row="S1len", T="char", ctype="const char *", attrs="+len(%d)" % n, flen=n)
     if r == "V":
         T = draw(st.sampled_from(["int", "double"]))
         return dict(row="V", T=T, ctype="std::vector<%s>" % T, attrs="")
@@ -260,7 +262,8 @@ def result(draw, lang, for_fortran=True, allowed=None, types=None):
     if r == "S3ref":
         return dict(row="S3ref", T="string", ctype="const std::string &", attrs="")
     if r == "S3len":
-        return dict(row="S3len", T="string", ctype="const std::string &", attrs="+len(30)", flen=30)
+        n = draw(st.sampled_from([30, 30, 8, 5]))
+        return dict(row="S3len", T="string", ctype="const std::string &", attrs="+len(%d)" % n, flen=n)
     raise ValueError(r)
 
 
